@@ -190,13 +190,16 @@ static thread_local std::size_t g_steps = 0;
 static thread_local std::size_t g_budget = 0;
 static thread_local unsigned long long g_hash = 0;
 static thread_local bool g_trace = false;
-static thread_local bool g_in_run = false;   // the hook also fires while lug parses a bre pattern at grammar construction: not counted
+static thread_local bool g_in_run = false;
+static thread_local std::string g_raises;   // one letter per executed raise instruction: R = outside predicates, I = inhibited (inside & or !)   // the hook also fires while lug parses a bre pattern at grammar construction: not counted
 static void step_hook(parser_base& p, std::size_t instr_index)
 {
 	if (!g_in_run) return;
 	if (g_steps >= g_budget) throw budget_exceeded{};
 	++g_steps;
 	auto const& r = p.registers_;
+	if (p.program_->instructions[instr_index].op == opcode::raise)
+		g_raises.push_back((r.ri & registers::inhibited_flag) != 0 ? 'I' : 'R');
 	unsigned long long const vals[8] = { instr_index, r.sr, r.mr, r.rc, r.cd, r.ci & registers::count_mask, p.stack_frames_.size(), p.responses_.size() };
 	for (auto v : vals) g_hash = ((g_hash * 33ULL) ^ (v & 0xffffffffULL)) & 0x3fffffffffffffULL;
 	if (g_trace) std::printf("  step %zu pc=%zu sr=%zu mr=%zu rc=%zu cd=%zu ci=%zu fr=%zu resp=%zu\n", g_steps, instr_index, r.sr, r.mr, r.rc, r.cd, r.ci & registers::count_mask, p.stack_frames_.size(), p.responses_.size());
@@ -216,7 +219,7 @@ static void finish_run(int caseno, std::string const& tag, std::string const& in
 	std::sort(ss.begin(), ss.end());
 	std::printf(" syms=");
 	for (auto const& t : ss) std::printf("%s,", t.c_str());
-	std::printf("\n");
+	std::printf(" raises=%s\n", g_raises.c_str());
 }
 
 // context for the terminate handler (a noexcept function threw: the process would be aborted)
@@ -263,7 +266,7 @@ static void run_one_inproc(int caseno, std::string const& tag, std::string const
 	g_log = &log; g_callbacks = 0;
 	environment e;
 	Parser p{gr, e};
-	g_steps = 0; g_hash = 0;
+	g_steps = 0; g_hash = 0; g_raises.clear();
 	char const* res = "?";
 	std::string resbuf;
 	try {
@@ -289,7 +292,7 @@ static void run_one_inproc(int caseno, std::string const& tag, std::string const
 template <class Parser>
 static std::string parse_once(Parser& p)
 {
-	g_steps = 0; g_hash = 0;
+	g_steps = 0; g_hash = 0; g_raises.clear();
 	std::string res;
 	try {
 		g_in_run = true;
@@ -409,12 +412,58 @@ static void run_threads(int caseno, grammar const& gr, std::vector<std::string> 
 	for (auto const& i : inputs) expected.push_back(run_to_string(gr, i));
 	std::vector<std::vector<std::string>> got(nthreads);
 	std::vector<std::thread> ts;
+	std::size_t const budget = g_budget;
 	for (unsigned t = 0; t < nthreads; ++t)
-		ts.emplace_back([&, t]() { g_budget = 3000000; for (int rep = 0; rep < 3; ++rep) for (size_t k = 0; k < inputs.size(); ++k) { auto r = run_to_string(gr, inputs[(k + t) % inputs.size()]); if (rep == 0) got[t].resize(inputs.size()); got[t][(k + t) % inputs.size()] = r; } });
+		ts.emplace_back([&, t]() { g_budget = budget; for (int rep = 0; rep < 3; ++rep) for (size_t k = 0; k < inputs.size(); ++k) { auto r = run_to_string(gr, inputs[(k + t) % inputs.size()]); if (rep == 0) got[t].resize(inputs.size()); got[t][(k + t) % inputs.size()] = r; } });
 	for (auto& t : ts) t.join();
 	size_t bad = 0; std::string first;
 	for (unsigned t = 0; t < nthreads; ++t) for (size_t k = 0; k < inputs.size(); ++k) if (got[t][k] != expected[k]) { if (!bad) first = "thread " + std::to_string(t) + " input " + std::to_string(k) + ": " + got[t][k] + " != " + expected[k]; ++bad; }
 	std::printf("case %d threads n=%u inputs=%zu mismatches=%zu %s\n", caseno, nthreads, inputs.size(), bad, first.c_str());
+}
+
+static std::string program_string(program const& p)
+{
+	std::ostringstream os;
+	for (auto const& i : p.instructions) os << static_cast<int>(i.op) << '.' << static_cast<int>(i.immediate8) << '.' << static_cast<int>(i.immediate16) << '.' << ((i.op == opcode::symbol_push && i.immediate8 != 1) ? 0L : static_cast<long>(i.offset32)) << ' ';
+	os << "| data=" << hex(std::string_view{p.data.data(), p.data.size()});
+	return os.str();
+}
+
+// builds the grammar of a case under a forced implicit whitespace rule (variant 0: the default, 1: nop, 2: *chr(' '))
+static std::string build_variant(sx const& g, int variant)
+{
+	std::vector<std::string> log;
+	builder b; b.log = &log;
+	std::optional<implicit_space_rule> sp;
+	if (variant == 1) sp.emplace(nop);
+	else if (variant == 2) sp.emplace(*chr(' '));
+	std::string start_name;
+	for (size_t i = 1; i < g.kids.size(); ++i) { auto const& t = g.kids[i].kids.at(0).atom; if (t == "rule" || t == "rulecopy") (void)b.rules[g.kids[i].kids.at(1).atom]; }
+	for (size_t i = 1; i < g.kids.size(); ++i) {
+		auto const& k = g.kids[i]; auto const& tag = k.kids.at(0).atom;
+		if (tag == "rule") { node n = b.build(k.kids.at(2)); b.rules[k.kids.at(1).atom] = std::visit([](auto const& x) { return rule{x}; }, n); }
+		else if (tag == "rulecopy") { b.rules[k.kids.at(1).atom] = b.rules[k.kids.at(2).atom]; }
+		else if (tag == "start") start_name = k.kids.at(1).atom;
+	}
+	try { grammar gr = start(b.rules[start_name]); return program_string(gr.program()); }
+	catch (std::exception const& ex) { return std::string("error ") + ex.what(); }
+}
+
+// (buildthreads N): the grammar is constructed concurrently on N threads, thread t under whitespace variant t % 3;
+// every thread must obtain the program a sequential construction under its variant gives
+static void run_buildthreads(int caseno, sx const& g, unsigned nthreads)
+{
+	std::string expected[3];
+	for (int v = 0; v < 3; ++v) expected[v] = build_variant(g, v);
+	std::vector<std::string> got(nthreads);
+	std::vector<std::thread> ts;
+	for (unsigned t = 0; t < nthreads; ++t)
+		ts.emplace_back([&, t]() { for (int rep = 0; rep < 2; ++rep) got[t] = build_variant(g, static_cast<int>(t % 3)); });
+	for (auto& t : ts) t.join();
+	size_t bad = 0;
+	for (unsigned t = 0; t < nthreads; ++t) if (got[t] != expected[t % 3]) ++bad;
+	std::printf("case %d buildthreads n=%u mismatches=%zu distinct_programs=%d\n", caseno, nthreads, bad,
+		1 + (expected[1] != expected[0]) + (expected[2] != expected[0] && expected[2] != expected[1]));
 }
 
 int main(int argc, char** argv)
@@ -472,6 +521,8 @@ int main(int argc, char** argv)
 					run_history(caseno, gr, k, log);
 				} else if (tag == "lines") {
 					run_lines(caseno, gr, k, log);
+				} else if (tag == "buildthreads") {
+					run_buildthreads(caseno, g, static_cast<unsigned>(std::stoul(k.kids.at(1).atom)));
 				} else if (tag == "threads") {
 					std::vector<std::string> inputs;
 					for (size_t j = 1; j < g.kids.size(); ++j) if (g.kids[j].kids.at(0).atom == "input") inputs.push_back(unhex(g.kids[j].kids.size() > 1 ? g.kids[j].kids[1].atom : "-"));
